@@ -71,7 +71,7 @@ def run(ctx, rep):
             rep.floor("K", "prefixes simulated", n, 4000)
     # ---- N: normalisation pipeline as an extracted model
     import javadoc_model as JM
-    rep.rule("N", "parse_javadoc is extracted as a pipeline model (three regex constants, replacement strings, trimmed character set, joiner; shape split -> map(trim, replace_all) -> map(replace_all) -> join) and the model is evaluated "
+    rep.rule("N", "parse_javadoc is extracted as a pipeline model (split regex, joiner, and the sequence of per-part operations - trim_matches with its character set, replace_all with its regex constant and replacement - applied by the map stages between split and collect/join, however they are distributed over closures) and the model is evaluated "
                   "on a bounded family of doc bodies (1-3 paragraphs, 1-2 lines, star-decorated and bare layouts, LF and CRLF, ASCII / accented / CJK / emoji words, 0-2 @tag clauses, single-line form) against a reference normaliser written from the statement")
     fpj = facts.fn(JM.PJ)
     try:
